@@ -360,6 +360,21 @@ def processAll (normalMax : Int) (nQueried : Nat) (single : Bool) :
       | (.ok c', got) => processAll normalMax nQueried single r c' (ne || got)
       | (o, _) => (o, ne)
 
+/-- the consumer state the book-keeping loop has reached when it stops: it works on the consumer's state in place, so what
+    it did for the partitions in front of the one that ends it (the `MessageSizeTooLarge` return in the middle of the loop)
+    stays done.  With replies that answer what was asked this is the state before the loop (a fetch of one partition has one
+    partition in its reply); a broker that answers more makes the difference visible. -/
+def processAllReached (normalMax : Int) (nQueried : Nat) (single : Bool) :
+    List (Bytes × FetchPartition) → Consumer → Consumer
+  | [], c => c
+  | (t, p) :: r, c =>
+    match topicRef c.assignments t with
+    | none => c
+    | some tr =>
+      match processPartition normalMax nQueried single c tr p with
+      | (.ok c', _) => processAllReached normalMax nQueried single r c'
+      | _ => c
+
 /-- `process_fetch_responses` -/
 def processResponses (nQueried : Nat) (resps : List FetchResponse) : CoM σ PollResult := fun w =>
   let c := w.cons
@@ -371,7 +386,7 @@ def processResponses (nQueried : Nat) (resps : List FetchResponse) : CoM σ Poll
     let parts := resps.flatMap fun r => r.topics.flatMap fun t => t.partitions.map fun p => (t.topic, p)
     match processAll normalMax nQueried single parts c false with
     | (.ok c', ne) => ({ w with cons := c' }, .ok ⟨resps, !ne⟩)
-    | (.err e, _) => (w, .err e)
+    | (.err e, _) => ({ w with cons := processAllReached normalMax nQueried single parts c }, .err e)
     | (.panic s, _) => (w, .panic s)
     | (.diverge, _) => (w, .diverge)
 
